@@ -282,6 +282,75 @@ fn weight_literals() -> Vec<String> {
     v
 }
 
+/// the over-long inputs of a tier (the child process regenerates the same list and picks one by index)
+pub fn long_inputs(thorough: bool) -> Vec<String> {
+    let mut long: Vec<String> = vec![];
+    let kmax = if thorough { 20 } else { 16 };
+    for a in ALPHA35 {
+        for k in [kmax / 2, kmax] {
+            // every comma costs the library seven regex compilations: cap that symbol
+            let k = if a == "," { k.min(if thorough { 14 } else { 11 }) } else { k };
+            long.push(a.repeat(1 << k));
+        }
+    }
+    long.push(vec!["A9s+:0.5"; 10_000].join(","));
+    long.push(vec!["AsKs"; 10_000].join(","));
+    long.push(",".repeat(10_000));
+    long.push(format!("AA:0.{}", "5".repeat(100_000)));
+    long.push(format!("AA:1.{}", "0".repeat(100_000)));
+    // shapes a recursive-descent parser would follow: suffixes, chained spans, nested weights
+    let n = 1usize << kmax;
+    long.push(format!("AA{}", "+".repeat(n)));
+    long.push(format!("AKs{}", "+".repeat(n)));
+    long.push(format!("{}AA", "AA-".repeat(n)));
+    long.push(format!("{}AQs", "AKs-".repeat(n)));
+    long.push(format!("AA{}", ":0".repeat(n)));
+    long.push(format!("AA:{}", "0.".repeat(n)));
+    long.push(format!("{}AA", "-".repeat(n)));
+    long.push(format!("As{}", "Ks".repeat(n)));
+    long
+}
+
+/// child mode: parse one over-long input on a thread with a 2 MiB stack and print what happened
+pub fn long_child(tier: &str, index: usize) -> i32 {
+    let long = long_inputs(tier == "thorough");
+    let s = long[index].clone();
+    let h = std::thread::Builder::new().stack_size(2 << 20).spawn(move || {
+        let mut st = Stats::default();
+        small_parsers(&s, &mut st).or_else(|| big_parsers(&s, Mode::Total, false, &mut st))
+    });
+    let r = match h {
+        Ok(h) => h.join(),
+        Err(_) => return 3,
+    };
+    match r {
+        Ok(None) => println!("{}", json!({"ok": true})),
+        Ok(Some((stage, what))) => println!("{}", json!({"ok": false, "stage": stage, "what": what})),
+        Err(_) => println!("{}", json!({"ok": false, "stage": "thread", "what": "the parsing thread panicked outside catch_unwind"})),
+    }
+    0
+}
+
+fn run_long_child(exe: &std::path::Path, tier: &str, i: usize) -> Option<(String, String)> {
+    let o = std::process::Command::new(exe).arg("C09-child").arg(tier).arg(i.to_string()).env("RUST_BACKTRACE", "0").output();
+    match o {
+        Err(e) => Some(("harness".into(), format!("cannot spawn the child: {}", e))),
+        Ok(o) => {
+            let text = String::from_utf8_lossy(&o.stdout).to_string();
+            let line = text.lines().rev().find(|l| l.starts_with('{')).and_then(|l| serde_json::from_str::<Value>(l).ok());
+            match (o.status.success(), line) {
+                (true, Some(v)) if v["ok"] == json!(true) => None,
+                (true, Some(v)) => Some((v["stage"].as_str().unwrap_or("?").to_string(), v["what"].as_str().unwrap_or("?").to_string())),
+                _ => {
+                    let err = String::from_utf8_lossy(&o.stderr);
+                    let hint = err.lines().find(|l| l.contains("overflow") || l.contains("abort") || l.contains("memory")).unwrap_or("").to_string();
+                    Some(("process".into(), format!("the process parsing this input died: {:?} {}", o.status, hint)))
+                }
+            }
+        }
+    }
+}
+
 fn push_viol(rep: &mut Report, sub: &str, s: &str, stage: &str, what: &str, mode: Mode) {
     let shown: String = if s.len() > 80 { format!("{}... ({} bytes)", s.chars().take(40).collect::<String>(), s.len()) } else { s.to_string() };
     rep.violation(Violation {
@@ -657,32 +726,27 @@ pub fn run(tier: &str, mode: Mode) -> i32 {
     }
 
     if mode == Mode::Total {
-        // (d) over-long inputs
-        let mut long: Vec<String> = vec![];
-        let kmax = if thorough { 20 } else { 16 };
-        for a in ALPHA35 {
-            for k in [kmax / 2, kmax] {
-                // every comma costs the library seven regex compilations: cap that symbol
-                let k = if a == "," { k.min(if thorough { 14 } else { 11 }) } else { k };
-                long.push(a.repeat(1 << k));
-            }
-        }
-        long.push(vec!["A9s+:0.5"; 10_000].join(","));
-        long.push(vec!["AsKs"; 10_000].join(","));
-        long.push(",".repeat(10_000));
-        long.push(format!("AA:0.{}", "5".repeat(100_000)));
-        long.push(format!("AA:1.{}", "0".repeat(100_000)));
-        let outs = par_map(long.len(), |i| {
-            let mut st = Stats::default();
-            let s = &long[i];
-            small_parsers(s, &mut st).or_else(|| big_parsers(s, mode, false, &mut st))
-        });
+        // (d) over-long inputs, each in a child process on a thread with an ordinary 2 MiB stack: recursion that
+        // follows the input's length overflows the stack there, and that kills the process - which this harness's
+        // own 1 GiB worker stacks would hide, and which no catch_unwind can observe
+        let long = long_inputs(thorough);
+        let exe = std::env::current_exe().expect("current_exe");
+        let outs = par_map(long.len(), |i| run_long_child(&exe, tier, i));
         for (i, o) in outs.into_iter().enumerate() {
             if let Some((stage, what)) = o {
-                push_viol(&mut rep, "over-long", &long[i], &stage, &what, mode);
+                let s = &long[i];
+                let shown: String = format!("{}... ({} bytes)", s.chars().take(40).collect::<String>(), s.len());
+                rep.violation(Violation {
+                    key: format!("input={:?}", shown),
+                    sub: "over-long".into(),
+                    case: json!({"long_index": i, "tier": tier, "mode": "total", "input_bytes": s.len()}),
+                    expected: json!("returns normally with a value or an error, on a thread with an ordinary (2 MiB) stack"),
+                    observed: json!({"stage": stage, "what": what}),
+                });
             }
         }
-        rep.sub("over-long", &format!("each alphabet symbol repeated 2^{} and 2^{} times; a valid token repeated 10^4 times; 10^4 commas; weight literals with 10^5 digits", kmax / 2, kmax), long.len() as u64, long.len() as u64, false, json!({}));
+        let kmax = if thorough { 20 } else { 16 };
+        rep.sub("over-long", &format!("each alphabet symbol repeated 2^{} and 2^{} times; a valid token repeated 10^4 times; 10^4 commas; weight literals with 10^5 digits; a token followed by 2^{} '+' signs, spans chained 2^{} times with '-', 2^{} colons; each input in its own child process on a 2 MiB stack (a stack overflow or any other death of the process is a violation)", kmax / 2, kmax, kmax, kmax, kmax), long.len() as u64, long.len() as u64, false, json!({}));
         rep.bound("strings longer than the enumeration bound are covered only by the shape family and the over-long family; 'all strings over Unicode' is infinite and the claim is for these bounds");
     }
 
@@ -806,6 +870,11 @@ pub fn run(tier: &str, mode: Mode) -> i32 {
 }
 
 pub fn replay(case: &Value) -> Value {
+    if let Some(i) = case.get("long_index").and_then(|x| x.as_u64()) {
+        let tier = case["tier"].as_str().unwrap_or("quick");
+        let exe = std::env::current_exe().expect("current_exe");
+        return json!({"long_index": i, "input_bytes": case["input_bytes"], "in_a_child_process_on_a_2MiB_stack": format!("{:?}", run_long_child(&exe, tier, i as usize))});
+    }
     let s = case["input"].as_str().unwrap_or("").to_string();
     let mode = if case["mode"].as_str() == Some("valid") { Mode::Valid } else { Mode::Total };
     let mut st = Stats::default();
